@@ -95,7 +95,7 @@ class Gen:
             self._pos_named_like_param = True  # (mark names are unique per program, so only once)
             return ("pos", self.r.choice(self.vars_in_scope), self.r.choice([0, 0, 2]), self.r.choice([0, 0, 2]),
                     self.r.choice([0, 1, 20, 255, -3]), self.r.choice([0, 5, 47, -1]))
-        return ("pos", f"m{self.posn}", self.r.choice([0, 0, 2]), self.r.choice([0, 0, 2]),
+        return ("pos", f"m{self.posn}" + self.r.choice(["", "", "", "é", " ü", "ß", "名"]), self.r.choice([0, 0, 2]), self.r.choice([0, 0, 2]),
                 self.r.choice([0, 1, 20, 255, -3]), self.r.choice([0, 5, 47, -1]))
 
     def param(self):
@@ -222,6 +222,10 @@ class Gen:
         return ("case", ("CaseMenu2", (n,)))
 
     def newlabel(self):
+        if getattr(self, "in_macro", False) and getattr(self, "_lbl_macro", None) is not None:
+            # labels of a macro body are private to it: different macros may use the same names
+            self._lbl_macro += 1
+            return f"m{self._lbl_macro}"
         self.lbln += 1
         return f"l{self.lbln}"
 
@@ -418,6 +422,7 @@ class Gen:
             self.labels_defined = []
             self.vars_in_scope = vars_
             self.in_macro = True
+            self._lbl_macro = 0 if shared_names else None
             body = self.block(min(self.c.depth, 2), False, False, n=self.r.randint(1, 4), allow_term=False)
             if self.c.ctrl_in_blocks and self.r.random() < 0.3:
                 body.append(("ctrl", "return"))
